@@ -589,7 +589,7 @@ start:
 			sc.startToken(val)
 		}
 		// Consume up to newline (included).
-		for c != 0 && c != '\n' {
+		for c != '\n' && !(c == 0 && sc.eof()) {
 			sc.readRune()
 			c = sc.peekRune()
 		}
@@ -635,6 +635,11 @@ start:
 
 	// end of file
 	if c == 0 {
+		// (peekRune reports EOF as 0; a literal NUL byte is not EOF.)
+		if !sc.eof() {
+			sc.errorf(sc.pos, "unexpected input character %#q", c)
+		}
+
 		// Emit OUTDENTs for unfinished indentation,
 		// preceded by a NEWLINE if we haven't just emitted one.
 		if len(sc.indentstk) > 1 {
